@@ -44,7 +44,7 @@ theorem exact_stepCreate {s s' : State} {id sender to coins lock ts tl transfer}
 theorem exact_stepClaim {s s' : State} {id secret lk} (hs : Inv s) (hx : EscrowExact s)
     (h : stepClaim s id secret lk = .ok s') : EscrowExact s' := by
   obtain ⟨c, s1, hget, hopen, _, hf, rfl⟩ := stepClaim_ok h
-  obtain ⟨hsnd, hwt, hwp⟩ := hs.1 id c hget
+  obtain ⟨hsnd, hwt, hwp⟩ := hs.1.2 id c hget
   rcases claimFunds_ok hf with ⟨ht, b, hb, rfl⟩ | ⟨ht, hdir, d0, n, r, hamt, hci⟩ | ⟨ht, hdir, d0, n, r, hamt, hco⟩
   · apply escrowExact_update hx rfl
     intro d
@@ -271,7 +271,7 @@ theorem track_stepCreate {k : Denom → Nat} {s s' : State} {id sender to coins 
 theorem track_stepClaim {k : Denom → Nat} {s s' : State} {id secret lk} (hs : Inv s)
     (hk : SupplyTrack k s) (h : stepClaim s id secret lk = .ok s') : SupplyTrack k s' := by
   obtain ⟨c, s1, hget, hopen, _, hf, rfl⟩ := stepClaim_ok h
-  obtain ⟨hsnd, hwt, hwp⟩ := hs.1 id c hget
+  obtain ⟨hsnd, hwt, hwp⟩ := hs.1.2 id c hget
   rcases claimFunds_ok hf with ⟨ht, b, hb, rfl⟩ | ⟨ht, hdir, d0, n, r, hamt, hci⟩ | ⟨ht, hdir, d0, n, r, hamt, hco⟩
   · intro d
     have := hk d
@@ -336,7 +336,7 @@ theorem claimIncoming_succeeds {s : State} {id : Id} {c : Contract} {d n a secre
     (ha : findAsset s.params d = some a) (hid : hexOk64 id = true) (hsec : hexOk64 secret = true) :
     ∃ s', stepClaim s id secret c.hashLock = .ok s' := by
   obtain ⟨hwf, hq, hge, hcnt⟩ := hs
-  obtain ⟨_, hwt, _⟩ := hwf id c hget
+  obtain ⟨_, hwt, _⟩ := hwf.2 id c hget
   obtain ⟨d1, n1, ha1, _, hsome⟩ := hwt ht
   rw [hamt] at ha1; cases ha1
   obtain ⟨sup, hsup⟩ := Option.isSome_iff_exists.mp hsome
